@@ -169,7 +169,8 @@ class StorageModel(core.BfsModel):
             for slot, want in verdict.items():
                 have = entries.get(slot)
                 if want == "gone" and have is not None:
-                    w.found.append(("storage:clean-leaves-expired-value",
+                    mixed = len({e.max_age for s, e in w.ref.entries.items() if s[0] == slot[0]}) > 1
+                    w.found.append(("storage:clean-leaves-expired-value|lifetimes:" + ("mixed" if mixed else "uniform"),
                                     f"clean(): {slot} is past its lifetime but still stored. before: {before}; "
                                     f"after: {self.listing(w)}"))
                 elif want == "kept" and have is None:
@@ -260,6 +261,11 @@ class CWorld:
         for n in "AMR":
             self.ov[n].walk_to(self.nodes["S"].address)
         self.net.flush()
+        # A, M and R are drivers (key holders / the reader): their own periodic maintenance is switched off so that a
+        # long time step only runs S's timers.  S keeps every periodic task of the real overlay.
+        for n in "AMR":
+            for name in ("token_maintenance", "node_maintenance", "value_maintenance"):
+                self.ov[n].cancel_pending_task(name)
         for x in IDENTITIES:
             self.obtain_token(x)
         self.found = []
@@ -271,11 +277,12 @@ class CWorld:
     # -- identities ------------------------------------------------------------------------------------------------
     def who(self, x: str) -> tuple:
         """(overlay whose key signs, source address the datagram arrives from, public key bin)."""
+        # the source address must be the endpoint's own address object (UDPv4Address), as a real endpoint reports it
         if x == "A":
-            return self.ov["A"], tuple(self.nodes["A"].address), self.pk["A"]
+            return self.ov["A"], self.nodes["A"].address, self.pk["A"]
         if x == "M":
-            return self.ov["M"], tuple(self.nodes["M"].address), self.pk["M"]
-        return self.ov["A"], tuple(self.nodes["M"].address), self.pk["A"]
+            return self.ov["M"], self.nodes["M"].address, self.pk["M"]
+        return self.ov["A"], self.nodes["M"].address, self.pk["A"]
 
     # -- observation of S ------------------------------------------------------------------------------------------
     def snapshot(self) -> tuple[dict, list]:
@@ -333,7 +340,8 @@ class CWorld:
             for slot, want in verdict.items():
                 have = entries.get(slot)
                 if want == "gone" and have is not None:
-                    self.found.append(("maintenance:expired-value-survives",
+                    mixed = len({e.max_age for s, e in self.ref_store.entries.items() if s[0] == slot[0]}) > 1
+                    self.found.append(("maintenance:expired-value-survives|lifetimes:" + ("mixed" if mixed else "uniform"),
                                        f"value maintenance at t={seams.CLOCK.now:g}: {self.slot_name(slot)} is past its "
                                        f"lifetime but still stored. before: {before}; after: {self.listing()}"))
                 elif want == "kept" and have is None:
@@ -596,7 +604,8 @@ class CommunityModel(core.BfsModel):
 
     def check(self, w: CWorld, hist, ev, obs) -> list:  # noqa: ANN001
         out = list(w.found)
-        for k in range(len(w.keys)):
+        used = {k for k, _ in w.ref_store.entries} | ({ev[4]} if ev[0] == "st" else set()) | {0}
+        for k in sorted(used):
             v, _ = w.read_and_check(k)
             out += v
         return out
@@ -621,6 +630,10 @@ def community_alphabet(name: str) -> list:
                                                ("st", "A", "own", "a1", 0), ("st", "A", "own", "a2", 0),
                                                ("st", "M", "own", "a2", 0), ("st", "A", "own", "m1", 0),
                                                ("st", "A", "own", "p:A", 1)]
+    elif name == "expiry":
+        # the smallest alphabet in which two values of one key get different ages: a third party's unsigned value
+        # and the key owner's signed value (the DHT keeps the owner's value last in the list)
+        al = [*time_events, ("st", "M", "own", "p:M", 0), ("st", "A", "own", "a1", 0), ("st", "A", "own", "a2", 0)]
     else:
         raise ValueError(name)
     return [tuple(e) for e in al]
@@ -737,8 +750,10 @@ def storage_configs(ctx: core.Ctx) -> list:
 
 def community_configs(ctx: core.Ctx) -> list:
     if ctx.thorough:
-        return [(CommunityModel("full", ctx.seed), 4), (CommunityModel("lifetimes", ctx.seed), 6)]
-    return [(CommunityModel("full", ctx.seed), 3), (CommunityModel("lifetimes", ctx.seed), 4)]
+        return [(CommunityModel("full", ctx.seed), 4), (CommunityModel("lifetimes", ctx.seed), 5),
+                (CommunityModel("expiry", ctx.seed), 8)]
+    return [(CommunityModel("full", ctx.seed), 3), (CommunityModel("lifetimes", ctx.seed), 4),
+            (CommunityModel("expiry", ctx.seed), 5)]
 
 
 def run(ctx: core.Ctx) -> core.Report:
@@ -750,7 +765,7 @@ def run(ctx: core.Ctx) -> core.Report:
     exhaustive = True
     for model, depth in storage_configs(ctx) + community_configs(ctx):
         t0 = seams.REAL_PERF()
-        r = core.bfs(model, depth, ctx.jobs, chunk=8 if isinstance(model, CommunityModel) else 32)
+        r = core.bfs(model, depth, ctx.jobs, chunk=1 if isinstance(model, CommunityModel) else 32)
         states += r["states"]
         transitions += r["transitions"]
         outcomes += r["distinct_outcomes"]
